@@ -400,9 +400,16 @@ StopArm ==
   /\ Act("stop.armed", 0)
   /\ UNCHANGED << readers, wWaiting, stopped, bctx, fctx, answers, deadline, afRan >> /\ UNCHANGED SUnch
 
-\* closes the stopping channel (when repaired), then asks for the write lock
+\* closes the stopping channel (when repaired) ...
+StopClosing ==
+  /\ spc = "armed" /\ spc' = "closing"
+  /\ Act("stop.closing", 0)
+  /\ UNCHANGED << readers, wWaiting, stopped, bctx, fctx, answers, deadline, afRan >> /\ UNCHANGED SUnch
+
+\* ... and only then asks for the write lock: a caller can still take the read lock in between, pass the
+\* stopped check and find the stopping channel closed (seen in traces of the real engine)
 StopLockReq ==
-  /\ spc = "armed" /\ spc' = "waitlock" /\ wWaiting' = TRUE
+  /\ spc = "closing" /\ spc' = "waitlock" /\ wWaiting' = TRUE
   /\ Act("stop.lockreq", 0)
   /\ UNCHANGED << readers, stopped, bctx, fctx, answers, deadline, afRan >> /\ UNCHANGED SUnch
 
@@ -478,7 +485,7 @@ Next ==
   \/ FlushCheck \/ StoreWedge \/ StoreUnwedge
   \/ \E ok \in BOOLEAN : FlushCreate(ok) \/ FlushClose(ok) \/ FlushUpdate(ok)
   \/ FlushAck
-  \/ StopArm \/ StopLockReq \/ StopFlag \/ StopCancel \/ StopRetNil \/ StopRetDeadline
+  \/ StopArm \/ StopClosing \/ StopLockReq \/ StopFlag \/ StopCancel \/ StopRetNil \/ StopRetDeadline
   \/ StopWatch \/ DeadlineFire \/ AfterFuncRun
 
 Spec == Init /\ [][Next]_vars
@@ -495,7 +502,7 @@ EngineStep ==
   \/ FlusherRecv \/ FlusherShutdown \/ FlusherIngestDone \/ FlusherExit
   \/ FlushCheck \/ StoreUnwedge
   \/ FlushCreate(TRUE) \/ FlushClose(TRUE) \/ FlushUpdate(TRUE) \/ FlushAck
-  \/ StopLockReq \/ StopFlag \/ StopCancel \/ StopRetNil \/ StopWatch
+  \/ StopClosing \/ StopLockReq \/ StopFlag \/ StopCancel \/ StopRetNil \/ StopWatch
 
 \* LiveSpec: everything the engine does is eventually done; a wedged store call
 \* is eventually released.  LiveSpecWedged: wedged calls may stay wedged for
